@@ -134,6 +134,13 @@ pub fn check_value(t: &Table, e: &TypeEntry, idx: usize, shape: &str, v: &Val) -
         }
         c14::check_reannounce(t, e, v, None, 1, &[]).map_err(|x| wrap("shortened-apdu", x))?;
     }
+    // a struct that delimits itself (positional, mandatory, fixed-size or length-prefixed fields only) hands back whatever
+    // follows it untouched - also a lone 1f / ff, which is not a complete tag
+    if l.ctrl.is_none() && m != "C13" && self_delimiting(t, l) {
+        for sfx in [&[0x1f][..], &[0xff], &[0x00], &[0x1f, 0x00], &[0x06, 0x0f, 0x00]] {
+            c14::check_suffix(t, e, v, sfx).map_err(|x| wrap("suffix", x))?;
+        }
+    }
     // totality
     if m != "C12" {
         return Ok(());
@@ -141,6 +148,19 @@ pub fn check_value(t: &Table, e: &TypeEntry, idx: usize, shape: &str, v: &Val) -
     let bytes = encode(t, l, v).unwrap();
     totality(e, &bytes, idx).map_err(|d| wrap("totality", Violation::new("lab", "x kind=totality".to_string(), d, Value::Null)))?;
     Ok(())
+}
+
+pub fn self_delimiting(t: &Table, l: &Layout) -> bool {
+    l.fields.iter().all(|f| {
+        f.tag.is_none()
+            && f.card == Card::One
+            && match (&f.len, &f.enc) {
+                (Len::Llv | Len::Lllv | Len::Tlv | Len::Fixed(_), _) => true,
+                (Len::None, Enc::Le(_) | Enc::Be(_)) => true,
+                (Len::None, Enc::Struct(n)) => self_delimiting(t, &t[n]),
+                _ => false,
+            }
+    })
 }
 
 /// a positional nested struct without length prefix that is followed by tagged fields, here or in a nested layout
@@ -218,6 +238,9 @@ pub fn main(types: Vec<TypeEntry>, shapes: Vec<&'static str>, table_src: &str) -
         }
         if l.fields.iter().any(|f| f.tag.is_none() && f.card == Card::Opt && f.len == Len::None && matches!(&f.enc, Enc::Struct(n) if t[n].fields.iter().any(|g| g.tag.is_some() && g.card == Card::One))) {
             st.class("programs:positional-option-of-unprefixed-struct-with-mandatory-tag");
+        }
+        if l.fields.iter().any(|f| f.tag.is_none() && f.len == Len::None && matches!(&f.enc, Enc::Struct(n) if self_delimiting(&t, &t[n]))) {
+            st.class("programs:unprefixed-self-delimiting-group");
         }
         if l.fields.iter().filter(|f| f.tag.is_some() && f.card == Card::One).count() >= 3 {
             st.class("programs:>=3-mandatory-tagged-fields");
